@@ -71,7 +71,10 @@ def handle : Handler := fun op inp impl =>
     -- the property: code, message and every detail survive (default-prefixed type URLs where
     -- the Connect form is involved; non-OK code where the gRPC form is involved)
     let claimed := (via == "grpc" || DefaultPrefixed e) && (via == "connect" || e.code != 0)
-    let holds := !claimed || (match implOut with | some o => sameError o e | none => false)
+    -- other type URL prefixes through the Connect form: the type each URL names and the bytes
+    let claimedTypes := !claimed && (via == "connect" || e.code != 0)
+    let holds := (!claimed || (match implOut with | some o => sameError o e | none => false)) &&
+      (!claimedTypes || (match implOut with | some o => sameErrorTypes o e | none => false))
     { agree := implOut == mOut && implMid == mMid, holds := holds,
       nontrivial := claimed && !e.details.isEmpty, model := errJson mOut, cls := via,
       why := if holds then "" else "error not preserved via " ++ via }
@@ -88,7 +91,9 @@ def handle : Handler := fun op inp impl =>
     let holds := match kind with
       | "nil" => implOut.isNone
       | "plain" => (match implOut with | some o => o.code == codeUnknown && o.getMessage == text | none => false)
-      | _ => !DefaultPrefixed e || (match implOut with | some o => sameError o e | none => false)
+      | _ => match implOut with
+        | some o => if DefaultPrefixed e then sameError o e else sameErrorTypes o e
+        | none => false
     { agree := implOut == mOut, holds := holds, nontrivial := kind != "nil", model := errJson mOut, cls := kind,
       why := if holds then "" else "error not preserved by ConvertErrorToProtoError (" ++ kind ++ ")" }
   | "h2md" =>
@@ -246,7 +251,10 @@ def handle : Handler := fun op inp impl =>
     -- the server appends the request info as one more detail (unary errors)
     let reqInfo := "connectrpc.conformance.v1.ConformancePayload.RequestInfo"
     let detailsOk := got.length == want.length + 1 && got.take want.length == want && ((got.drop want.length).map (·.1)) == [reqInfo]
-    let holds := bool (field impl "isErr") && int (field impl "code") == code && str (field impl "msg") == msg && detailsOk
+    -- the RequestInfo the server packed into an Any unpacks on the client side (after the
+    -- Connect -> proto conversion) and is the one of this request
+    let reqInfoOk := bool (field impl "reqInfo") && str (field impl "reqInfoName") == "verif/c18/srve2e"
+    let holds := bool (field impl "isErr") && int (field impl "code") == code && str (field impl "msg") == msg && detailsOk && reqInfoOk
     let hdrOk := strList (field impl "header") == (if bool (field inp "headers") then ["h1", "h2"] else [])
       && strList (field impl "trailer") == (if bool (field inp "trailers") then ["t1"] else [])
     { agree := holds && hdrOk, holds := holds, nontrivial := bool (field inp "headers"),
